@@ -1089,6 +1089,18 @@ pub fn validate(w: &Written, fault_free: bool, source_loadable: bool) -> Problem
         // are only asserted for fault-free sources.
         if fault_free && w.kind != WrittenKind::Whole {
             cross_table(&tables, w.kind, ALL_RELATIONS, &mut problems);
+        } else if w.kind == WrittenKind::Instance {
+            // Under faults: the one relation that lies inside a single table the instancer
+            // re-serialises from what it parsed - a version 2.0 post table holds the index array
+            // it declares and every custom name its indices refer to (nothing is compared with
+            // other tables, which a damaged source may legitimately contradict).
+            if let Some(post) = tables.iter().find(|t| t.tag == tag::POST) {
+                if be32(post.data, 0) == Some(0x0002_0000) {
+                    if let Some(n) = be16(post.data, 32) {
+                        check_post_v2(post.data, usize::from(n), &mut problems);
+                    }
+                }
+            }
         }
         if problems.is_empty() && source_loadable {
             self_load(w, fault_free, &mut problems);
